@@ -65,11 +65,21 @@ def ensure_driver():
         raise ExtractError('driver build failed:\n' + r.stdout[-3000:])
 
 
+def work_dir(repo):
+    """caches of the real tree live in /verif/.work; those of a scratch copy (selftest, sweeps) live inside the
+    copy, so that removing the copy removes them"""
+    if os.path.abspath(repo) == os.path.abspath('/repo'):
+        return os.path.join(VERIF, '.work')
+    return os.path.join(os.path.abspath(repo), '.fi-work')
+
+
 def get_facts(config='std', repo=None, quiet=True):
     """returns (path to facts json, info dict)"""
     repo = repo or REPO
     os.makedirs(WORK, exist_ok=True)
     tag = hashlib.sha256(os.path.abspath(repo).encode()).hexdigest()[:6]
+    work = work_dir(repo)
+    os.makedirs(work, exist_ok=True)
     glock = open(os.path.join(WORK, '.driver.lock'), 'w')
     fcntl.flock(glock, fcntl.LOCK_EX)
     try:
@@ -77,19 +87,19 @@ def get_facts(config='std', repo=None, quiet=True):
     finally:
         fcntl.flock(glock, fcntl.LOCK_UN)
         glock.close()
-    lock = open(os.path.join(WORK, '.extract-%s-%s.lock' % (config, tag)), 'w')
+    lock = open(os.path.join(work, '.extract-%s-%s.lock' % (config, tag)), 'w')
     fcntl.flock(lock, fcntl.LOCK_EX)
     try:
         h = tree_hash(repo)
-        out = os.path.join(WORK, 'facts-%s-%s-%s.json' % (config, tag, h))
+        out = os.path.join(work, 'facts-%s-%s-%s.json' % (config, tag, h))
         info = {'config': config, 'tree_hash': h, 'cached': True, 'extract_s': 0.0}
         if os.path.exists(out) and os.path.getsize(out) > 1000:
             return out, info
         # drop stale fact files of this config/repo
-        for f in os.listdir(WORK):
+        for f in os.listdir(work):
             if f.startswith('facts-%s-%s-' % (config, tag)):
-                os.remove(os.path.join(WORK, f))
-        tgt = os.path.join(WORK, 'tgt-%s-%s' % (config, tag))
+                os.remove(os.path.join(work, f))
+        tgt = os.path.join(work, 'tgt-%s-%s' % (config, tag))
         fp = os.path.join(tgt, 'debug', '.fingerprint')
         if os.path.isdir(fp):
             for d in os.listdir(fp):
